@@ -50,7 +50,7 @@ def run(tier, seed, started):
     kinds = res.sets.get('deviation_kinds', set())
     if c.get('executions', 0) < 300 or not {'next', 'hold', 'stall'} <= kinds or \
             c.get('queries_judged', 0) < 10000:
-        raise common.Broken(f'vacuous C10 run: {c} {kinds}')
+        common.vacuous(PROP, res, f'vacuous C10 run: {c} {kinds}')
     coverage = {
         'evaluations': c['executions'],
         'distinct_nontrivial': len(res.sets.get('schedules', ())),
